@@ -1039,21 +1039,30 @@ impl<T: Send> AsyncReceiver<T> {
   pub fn to_sync(self) -> Receiver<T> {
     if self.is_registered {
       let state_ptr = &self.state as *const AtomicU8;
-      if self
-        .state
-        .compare_exchange(
-          STATE_WAITING,
-          STATE_CANCELLED,
-          Ordering::SeqCst,
-          Ordering::SeqCst,
-        )
-        .is_ok()
-      {
-        // Eagerly unlink before mem::forget so the pointer doesn't dangle.
-        let mut guard = self.shared.internal.lock();
-        guard
-          .waiting_async_receivers
-          .retain(|w| w.state != state_ptr);
+      match self.state.compare_exchange(
+        STATE_WAITING,
+        STATE_CANCELLED,
+        Ordering::SeqCst,
+        Ordering::SeqCst,
+      ) {
+        Ok(_) => {
+          // Eagerly unlink before mem::forget so the pointer doesn't dangle.
+          let mut guard = self.shared.internal.lock();
+          guard
+            .waiting_async_receivers
+            .retain(|w| w.state != state_ptr);
+        }
+        // Already woken as a stream: the converted handle starts from scratch,
+        // so the wake goes on to the next parked receiver.
+        Err(core::STATE_SUCCESS_SPACE) => {
+          let mut guard = self.shared.internal.lock();
+          let pass_on = guard.pass_wake_to_receiver();
+          drop(guard);
+          if let Some(w) = pass_on {
+            w.wake();
+          }
+        }
+        Err(_) => {}
       }
     }
     let shared = unsafe { std::ptr::read(&self.shared) };
@@ -1092,20 +1101,29 @@ impl<T: Send> Drop for AsyncReceiver<T> {
     let _ = self.close();
     if self.is_registered {
       let state_ptr = &self.state as *const AtomicU8;
-      if self
-        .state
-        .compare_exchange(
-          STATE_WAITING,
-          STATE_CANCELLED,
-          Ordering::SeqCst,
-          Ordering::SeqCst,
-        )
-        .is_ok()
-      {
-        let mut guard = self.shared.internal.lock();
-        guard
-          .waiting_async_receivers
-          .retain(|w| w.state != state_ptr);
+      match self.state.compare_exchange(
+        STATE_WAITING,
+        STATE_CANCELLED,
+        Ordering::SeqCst,
+        Ordering::SeqCst,
+      ) {
+        Ok(_) => {
+          let mut guard = self.shared.internal.lock();
+          guard
+            .waiting_async_receivers
+            .retain(|w| w.state != state_ptr);
+        }
+        // The stream registration was already woken for an item this handle will
+        // never take: hand the wake to the next parked receiver.
+        Err(core::STATE_SUCCESS_SPACE) => {
+          let mut guard = self.shared.internal.lock();
+          let pass_on = guard.pass_wake_to_receiver();
+          drop(guard);
+          if let Some(w) = pass_on {
+            w.wake();
+          }
+        }
+        Err(_) => {}
       }
     }
   }
